@@ -376,13 +376,13 @@ func parseKeys(s string, K int) ([]int, bool) {
 	return out, len(out) <= 8
 }
 
-var outcomes = map[string]bool{"ok": true, "sl": true, "e5": true, "c404": true, "c429": true, "c502": true, "c503": true,
+var outcomes = map[string]bool{"ok": true, "sb": true, "se": true, "sl": true, "e5": true, "c404": true, "c429": true, "c502": true, "c503": true,
 	"rst": true, "hup": true, "pan": true, "her": true}
 
 // answerStatus: the status code of a complete answer (0 = the answer token is something else).
 func answerStatus(out string) int {
 	switch out {
-	case "ok", "sl", "hup", "pan", "her": // sl: a 200 that takes longer than unhealthy_latency; hup/pan/her: a 200 whose body breaks off / whose response handler panics / fails
+	case "ok", "sb", "sl", "hup", "pan", "her": // sl: a 200 that takes longer than unhealthy_latency; hup/pan/her: a 200 whose body breaks off / whose response handler panics / fails
 		return 200
 	case "e5":
 		return 500
@@ -572,15 +572,17 @@ type cfgGen struct {
 }
 
 type reqSt struct {
-	id     int
-	cfg    *cfgGen
-	cancel context.CancelFunc
-	parked bool
-	at     int // backend key while parked
-	cmd    chan string
-	done   bool
-	since  time.Time // when it was parked
-	aged   bool      // it was already parked while a slow answer was being waited for: its round trip is slow too
+	id        int
+	cfg       *cfgGen
+	cancel    context.CancelFunc
+	parked    bool
+	at        int // backend key while parked
+	cmd       chan string
+	done      bool
+	since     time.Time // when it was parked
+	w         *syncWriter
+	streaming bool // header and first part of the body have arrived, the rest is pending
+	aged      bool // it was already parked while a slow answer was being waited for: its round trip is slow too
 }
 
 type reqEvent struct {
@@ -742,6 +744,18 @@ func (b *backend) ServeHTTP(w http.ResponseWriter, r *http.Request) {
 	case "sl":
 		time.Sleep(slowAnswer)
 		w.Write([]byte("ok"))
+	case "sb":
+		// stream: header and a first part now, the rest when told (or never, if the client goes away)
+		w.Write([]byte("part"))
+		if f, ok := w.(http.Flusher); ok {
+			f.Flush()
+		}
+		select {
+		case <-cmd:
+			w.Write([]byte("rest"))
+		case <-r.Context().Done():
+		case <-time.After(30 * time.Second):
+		}
 	case "e5", "c404", "c429", "c502", "c503":
 		w.WriteHeader(answerStatus(c))
 		w.Write([]byte("no"))
@@ -830,14 +844,14 @@ func (k *kase) handlerJSON(st step, bad bool) []byte {
 		m["health_checks"] = map[string]any{"passive": pa}
 	}
 	if st.act && !st.dyn {
-		// active health checks against the same backends, every 5 ms, half of them failing; the
+		// active health checks against the same backends, every 8 ms, half of them failing; the
 		// `fails` threshold is out of reach, so no upstream is ever marked down by them: whatever
 		// they do must leave the in-flight / failure accounting and the pool alone
 		hc, _ := m["health_checks"].(map[string]any)
 		if hc == nil {
 			hc = map[string]any{}
 		}
-		hc["active"] = map[string]any{"uri": "/verif-health", "interval": int64(5 * time.Millisecond),
+		hc["active"] = map[string]any{"uri": "/verif-health", "interval": int64(8 * time.Millisecond),
 			"timeout": int64(2 * time.Second), "passes": 1, "fails": 1000000000}
 		m["health_checks"] = hc
 		k.tag("active-health-checks-running")
@@ -1001,6 +1015,38 @@ func (k *kase) waitReq(r *reqSt) string {
 	}
 }
 
+// syncWriter is the ResponseWriter of a proxied request: like a recorder, but safe to watch from
+// the controller, which needs to know when the first part of a streamed body has arrived.
+type syncWriter struct {
+	mu    sync.Mutex
+	hdr   http.Header
+	code  int
+	n     int
+	first chan struct{}
+	once  sync.Once
+}
+
+func newSyncWriter() *syncWriter { return &syncWriter{hdr: http.Header{}, first: make(chan struct{})} }
+
+func (w *syncWriter) Header() http.Header { return w.hdr }
+func (w *syncWriter) WriteHeader(c int) {
+	w.mu.Lock()
+	if w.code == 0 {
+		w.code = c
+	}
+	w.mu.Unlock()
+}
+func (w *syncWriter) Write(b []byte) (int, error) {
+	w.mu.Lock()
+	w.n += len(b)
+	w.mu.Unlock()
+	if len(b) > 0 {
+		w.once.Do(func() { close(w.first) })
+	}
+	return len(b), nil
+}
+func (w *syncWriter) Flush() {}
+
 func (k *kase) newReq(get bool) string {
 	c := k.cur
 	r := &reqSt{id: len(k.reqs), cfg: c}
@@ -1013,7 +1059,8 @@ func (k *kase) newReq(get bool) string {
 	r.cancel = cancel
 	req := httptest.NewRequest(method, "http://c09.test/r", nil).WithContext(ctx)
 	req.Header.Set("X-Rid", strconv.Itoa(r.id))
-	w := httptest.NewRecorder()
+	w := newSyncWriter()
+	r.w = w
 	repl := caddy.NewReplacer()
 	req = caddyhttp.PrepareRequest(req, repl, w, &caddyhttp.Server{})
 	go func() {
@@ -1281,13 +1328,43 @@ func (p *prop) runSched(K int, src stepSource, U time.Duration, cf bool) (impl s
 			moved = k.cur
 			ev = k.newReq(st.get)
 		case 'O', 'A':
+			var quickSince time.Time
 			if st.rid >= len(k.reqs) || !k.reqs[st.rid].parked {
 				ok = false
 				break
 			}
 			r := k.reqs[st.rid]
+			if st.op == 'O' && (r.streaming != (st.out == "se")) {
+				ok = false // a streaming request can only be finished (se) or abandoned (A); se needs one
+				break
+			}
 			moved = r.cfg
+			if st.op == 'O' && st.out == "sb" {
+				// the response begins: strikes happen now, the request stays in flight
+				k.lastAged = r.aged
+				r.cmd <- "sb"
+				select {
+				case <-r.w.first:
+					ev = "S"
+				case <-time.After(8 * time.Second):
+					ev = "hang"
+					k.infra = fmt.Sprintf("request %d: the streamed body did not arrive", r.id)
+				}
+				if r.cfg.st.lat && r.cfg.st.p && !r.aged && time.Since(r.since) > latencyLimit/2 {
+					// the machine was so slow that this quick answer may look slow to unhealthy_latency
+					k.raced = true
+				}
+				r.streaming = true
+				k.tag("response-streaming")
+				break
+			}
 			r.parked = false
+			if r.streaming {
+				r.streaming = false
+				if st.op == 'A' {
+					k.tag("client-abort-while-streaming")
+				}
+			}
 			if st.op == 'A' {
 				r.cancel()
 				k.tag("client-abort")
@@ -1300,9 +1377,9 @@ func (p *prop) runSched(K int, src stepSource, U time.Duration, cf bool) (impl s
 						}
 					}
 				}
-				if r.cfg.st.lat && r.cfg.st.p && st.out != "sl" && st.out != "rst" && !r.aged && time.Since(r.since) > latencyLimit/2 {
-					// the machine was so slow that a quick answer may look slow to unhealthy_latency
-					k.raced = true
+				quickSince = time.Time{}
+				if r.cfg.st.lat && r.cfg.st.p && st.out != "sl" && st.out != "se" && st.out != "rst" && !r.aged {
+					quickSince = r.since
 				}
 				r.cmd <- st.out
 				k.tag("out-" + st.out)
@@ -1314,6 +1391,11 @@ func (p *prop) runSched(K int, src stepSource, U time.Duration, cf bool) (impl s
 				k.tag("moved-on-unloaded-config")
 			}
 			ev = k.waitReq(r)
+			if !quickSince.IsZero() && time.Since(quickSince) > latencyLimit/2 {
+				// the machine was so slow that a quick answer may have looked slow to
+				// unhealthy_latency: run the case again
+				k.raced = true
+			}
 			if r.cfg.canceled && strings.HasPrefix(ev, "P") {
 				// tryAgain of an unloaded configuration selects between its interval timer and
 				// the closed ctx.Done(): a retry is only possible if the goroutine was held up
